@@ -817,3 +817,44 @@ def dbs_negchain():
             {"a": ((1,),), "e": ((0, 1), (1, 2), (2, 0))},
             {"a": ((0,), (2,)), "e": ((0, 1),)},
             {"a": ((0,),), "e": ((0, 1), (1, 2), (3, 2))}]
+
+
+# ------------------------------------------------------------------ inequalities that become index range bounds
+
+def family_ineq(tier, start=0):
+    """Two-atom joins whose second atom is constrained by inequalities only: every operator of {<, <=, >, >=, !=} against a variable
+    of the first atom or a constant, one-sided and two-sided, the second atom's variable existential (q(x)) or used (p(x,y)).
+    These are the bodies that the RAM-level index selection turns into range searches and existence checks."""
+    cases = []
+    cid = start
+    W = Var("w")
+    firsts = [[Atom("a", [X])], [Atom("e", [X, Z])]]
+    seconds = [Atom("a", [Y]), Atom("e", [Y, Anon()]), Atom("e", [Anon(), Y]), Atom("e", [Y, W]), Atom("e", [X, Y])]
+    cons = []
+    for op in ("<", "<=", ">", ">=", "!="):
+        for t in (X, Num(1)):
+            cons.append([Cmp(op, Y, t)])
+    for lo in (">", ">="):
+        for hi in ("<", "<="):
+            for t1 in (Num(0), X):
+                for t2 in (Num(2), X):
+                    if t1 is X and t2 is X:
+                        continue
+                    cons.append([Cmp(lo, Y, t1), Cmp(hi, Y, t2)])
+    for f in firsts:
+        for s2 in seconds:
+            for cs in cons:
+                for head in ("q", "p"):
+                    P = Program()
+                    _edb_ae(P)
+                    r = "%s_%d" % (head, cid)
+                    if head == "q":
+                        P.rel(r, [("x", "number")], is_output=True)
+                        h = Atom(r, [X])
+                    else:
+                        P.rel(r, [("x", "number"), ("y", "number")], is_output=True)
+                        h = Atom(r, [X, Y])
+                    P.rules.append(Rule([h], list(f) + [s2] + list(cs), None))
+                    cases.append(Case(cid, "ineq", P, show(P.rules[-1])))
+                    cid += 1
+    return _finish(cases)
